@@ -171,20 +171,28 @@ inductive Step
   | AS | ASm (e : Nat) | MS | D | H
   deriving DecidableEq, Repr
 
-def monthAbbr : List String :=
-  ["JAN", "FEB", "MAR", "APR", "MAY", "JUN", "JUL", "AUG", "SEP", "OCT", "NOV", "DEC"]
+def monthAbbr : List (List Char) :=
+  [['J','A','N'], ['F','E','B'], ['M','A','R'], ['A','P','R'], ['M','A','Y'], ['J','U','N'],
+   ['J','U','L'], ['A','U','G'], ['S','E','P'], ['O','C','T'], ['N','O','V'], ['D','E','C']]
 
-/-- the `startswith("AS")` / `allowed` assertions of `compute_aggindex` -/
-def parseStep (s : String) : Except Err Step :=
-  if s = "AS" then .ok .AS
-  else if s.startsWith "AS" then
-    match monthAbbr.idxOf? ((s.replace "AS-" "")) with
+/-- `re.sub("AS-", "", timestep)`: every (leftmost, non-overlapping) occurrence removed -/
+def removeAS : List Char → List Char
+  | 'A' :: 'S' :: '-' :: r => removeAS r
+  | c :: r => c :: removeAS r
+  | [] => []
+
+/-- the `startswith("AS")` / `allowed` assertions of `compute_aggindex`, on the characters of the time step -/
+def parseStep (s : List Char) : Except Err Step :=
+  match s with
+  | ['A', 'S'] => .ok .AS
+  | 'A' :: 'S' :: _ =>
+    match monthAbbr.idxOf? (removeAS s) with
     | some i => .ok (.ASm (i + 1))
     | none => .error .badTimestep
-  else if s = "MS" then .ok .MS
-  else if s = "D" then .ok .D
-  else if s = "h" then .ok .H
-  else .error .badTimestep
+  | ['M', 'S'] => .ok .MS
+  | ['D'] => .ok .D
+  | ['h'] => .ok .H
+  | _ => .error .badTimestep
 
 /-- the index value of one time stamp; `AS-MMM`: `(time + DateOffset(months=11-imth)).year - 1` -/
 def aggIndex : Step → Stamp → Int
@@ -194,7 +202,7 @@ def aggIndex : Step → Stamp → Int
   | .D, t => t.y * 10000 + (t.m : Int) * 100 + (t.d : Int)
   | .H, t => t.y * 1000000 + (t.m : Int) * 10000 + (t.d : Int) * 100 + (t.h : Int)
 
-def computeAggindex (timestep : String) (ts : List Stamp) : Except Err (List Int) :=
+def computeAggindex (timestep : List Char) (ts : List Stamp) : Except Err (List Int) :=
   match parseStep timestep with
   | .error e => .error e
   | .ok st => .ok (ts.map (aggIndex st))
@@ -303,12 +311,17 @@ def cum (m : Month α) (j : Nat) : α := polyval (coefs m) ((j : α) / (m.n : α
 def cubicMonth (m : Month α) : List α :=
   (List.range m.n).map fun j => cum m (j + 1) - cum m j
 
-/-- cubic branch; missing months enter as `minthreshold-1` like any other value (dutils.py:353-354) -/
+/-- `sec[pd.isnull(sec)] = minthreshold-1` (dutils.py:353-354) -/
+def fillMissing (minthr : α) : Option α → α
+  | none => minthr - 1
+  | some y => y
+
+/-- cubic branch; missing months enter as `minthreshold-1` like any other value -/
 def m2dCubic (y0 : Int) (m0 : Nat) (minthr : α) (vs : List (Option α)) : Except Err (List (List α)) :=
   if m0 < 1 ∨ 12 < m0 then .error .badMonth
   else if vs = [] then .error .emptyInput
   else
-    let ys := vs.map fun v => match v with | none => minthr - 1 | some y => y
+    let ys := vs.map (fillMissing minthr)
     .ok ((sweep (cubicInit ys (monthLengths y0 m0 ys.length))).map cubicMonth)
 
 /-- `monthly2daily(se, interpolation, minthreshold)`: dispatch on the interpolation name -/
